@@ -130,6 +130,7 @@ type storeRun struct {
 	saved    []savedRound
 	pruned   int64 // roots at versions below this are no longer retained
 	roundOps []string
+	mergeOverlap bool // matcher of known finding C03-merge-order fired in this case
 	light    bool // op `light`: no per-operation frame/view re-reads after ins/del (large histories)
 	sub      bool // replaying a round on a cloned store: no output checks, no nested enumeration
 	fails    []string
@@ -515,6 +516,41 @@ func pstoreLine(dir string) string {
 	return "ok keys=" + strings.Join(hk, ",") + " vd=" + hx(sha3sum(cat)) + " dead=" + strings.Join(ds, ";")
 }
 
+// adversarialOrder reports whether some key is both the New of one change and the Old of another (matcher of the
+// known finding C03-merge-order) and, if so, sorts the changes so that the creation of such a key comes before
+// its replacement: rank 0 = changes whose New is another change's Old, then the rest; by New hash within a rank.
+func adversarialOrder(changes []*util.NodeChange) bool {
+	olds := map[string]bool{}
+	for _, c := range changes {
+		if c.Old != nil {
+			olds[c.Old.GetHash()] = true
+		}
+	}
+	overlap := false
+	for _, c := range changes {
+		if olds[c.New.GetHash()] {
+			overlap = true
+		}
+	}
+	if !overlap {
+		return false
+	}
+	rank := func(c *util.NodeChange) int {
+		if olds[c.New.GetHash()] {
+			return 0
+		}
+		return 1
+	}
+	sort.SliceStable(changes, func(i, j int) bool {
+		ri, rj := rank(changes[i]), rank(changes[j])
+		if ri != rj {
+			return ri < rj
+		}
+		return changes[i].New.GetHash() < changes[j].New.GetHash()
+	})
+	return true
+}
+
 // ---- operations -------------------------------------------------------------------------------------------
 
 func (s *storeRun) openBlock(version int64) *trieH {
@@ -768,12 +804,27 @@ func (s *storeRun) exec(op string) string {
 		p := s.tries[c.parent]
 		s.roundOps = append(s.roundOps, op)
 		pSnap := p.snap
+		newRoot, changes, deletes, startRoot := c.mpt.GetChanges()
+		overlap := adversarialOrder(changes)
 		out := guard(func() string {
-			if err := p.mpt.MergeMPTChanges(c.mpt); err != nil {
+			var err error
+			if overlap {
+				// known finding C03-merge-order: MergeMPTChanges replays the child's changes in Go map order and
+				// the outcome depends on that order when a key is the New of one change and the Old of another.
+				// The exported MergeChanges takes the changes as a slice: replay them in the (possible) bad order.
+				err = p.mpt.MergeChanges(newRoot, changes, deletes, startRoot)
+			} else {
+				err = p.mpt.MergeMPTChanges(c.mpt)
+			}
+			if err != nil {
 				return errKind(err)
 			}
 			return "ok " + rootStr(p.mpt.GetRoot())
 		})
+		if overlap {
+			s.tags["merge-new-old-overlap"] = true
+			s.mergeOverlap = true
+		}
 		parentMoved := p.muts != c.parentMuts
 		switch {
 		case strings.HasPrefix(out, "ok"):
@@ -1051,6 +1102,9 @@ func runStoreCase(prop string, ops []string) CaseResult {
 	}
 	grocksdb.FakeReset(s.dir)
 	res.Fails = s.fails
+	if s.mergeOverlap && len(s.fails) > 0 {
+		res.Finding = "C03-merge-order"
+	}
 	for t := range s.tags {
 		res.Tags = append(res.Tags, t)
 	}
